@@ -6,7 +6,7 @@
     Hamming weight, bounded-distance decoder).  [weight]/[hamming] are the specification's (ones among the
     low 24 bits); data words are the numbers below 4096 = 2^12, received words the numbers below 2^24. *)
 From Coq Require Import NArith List Bool Sorted Permutation.
-From M17 Require Import Bits ConstsGolay ImplGolay SpecGolay LemmasGolay_A LemmasGolay_B LemmasGolay_C LemmasGolay_D LemmasGolay_E.
+From M17 Require Import Bits ConstsGolay ImplGolay ImplGolayFast SpecGolay LemmasGolay_A LemmasGolay_B LemmasGolay_C LemmasGolay_D LemmasGolay_E LemmasGolay_F.
 Import ListNotations.
 Local Open Scope N_scope.
 
@@ -124,6 +124,11 @@ Theorem c04_decode_output_shape : forall r o, r < 2 ^ 24 -> golay_decode r = Som
   o < 2 ^ 24 /\ (o = golay_encode24 (N.shiftr o 12) \/ o = N.lxor (golay_encode24 (N.shiftr o 12)) 1).
 Proof. exact x_decode_output_shape. Qed.
 Print Assumptions c04_decode_output_shape.
+
+(** the trie-based form used for bulk evaluation is the same function on the domain *)
+Theorem c04_decode_fast_equiv : forall r, r < 2 ^ 24 -> golay_decode_fast r = golay_decode r.
+Proof. exact golay_decode_fast_eq. Qed.
+Print Assumptions c04_decode_fast_equiv.
 
 (** ** the hypotheses are satisfiable; the published vector; what the repaired acceptance rule is about *)
 Example c04_vector : golay_encode24 0xD78 = 0xD7880F /\ golay_decode 0xD7880F = Some 0xD7880F.
